@@ -289,6 +289,12 @@ ODF_MIME = {"odt": "application/vnd.oasis.opendocument.text", "odp": "applicatio
 
 
 def _odf_frame(pl, k: int) -> str:
+    """a picture frame, wrapped in pl["group"] nested draw:g shape groups"""
+    g = int(pl.get("group", 0))
+    return "<draw:g>" * g + _odf_frame0(pl, k) + "</draw:g>" * g
+
+
+def _odf_frame0(pl, k: int) -> str:
     href = quoteattr(pl["target"])
     return (f'<draw:frame draw:name="img{k}" svg:x="1cm" svg:y="{k}cm" svg:width="2cm" svg:height="3cm">'
             f'<draw:image xlink:href={href} xlink:type="simple" xlink:show="embed" xlink:actuate="onLoad"/>'
@@ -405,7 +411,49 @@ def _run_length(data: bytes) -> bytes:
     return bytes(out) + b"\x80"
 
 
+def _lzw(data: bytes) -> bytes:
+    """PDF /LZWDecode encoder (9..12-bit codes, MSB first, clear 256, EOD 257, EarlyChange 1)."""
+    codes = []
+    table = {bytes((i,)): i for i in range(256)}
+    nxt, width = 258, 9
+    codes.append((256, width))
+    w = b""
+    for b in data:
+        wc = w + bytes((b,))
+        if wc in table:
+            w = wc
+            continue
+        codes.append((table[w], width))
+        table[wc] = nxt
+        nxt += 1
+        if nxt + 1 > (1 << width) and width < 12:
+            width += 1
+        if nxt >= 4095:
+            codes.append((256, width))
+            table = {bytes((i,)): i for i in range(256)}
+            nxt, width = 258, 9
+        w = bytes((b,))
+    if w:
+        codes.append((table[w], width))
+    nxt += 1
+    if nxt + 1 > (1 << width) and width < 12:
+        width += 1
+    codes.append((257, width))
+    acc = n = 0
+    out = bytearray()
+    for code, wd in codes:
+        acc = (acc << wd) | code
+        n += wd
+        while n >= 8:
+            out.append((acc >> (n - 8)) & 0xFF)
+            n -= 8
+    if n:
+        out.append((acc << (8 - n)) & 0xFF)
+    return bytes(out)
+
+
 PDF_STAGE = {
+    "LZWDecode": _lzw,
     "DCTDecode": lambda d: d,                                        # the JPEG file itself
     "FlateDecode": lambda d: zlib.compress(d),
     "ASCIIHexDecode": lambda d: d.hex().encode() + b">",
@@ -418,6 +466,7 @@ PDF_ENCODINGS = {
     "flate+dct": ["FlateDecode", "DCTDecode"], "ahx+dct": ["ASCIIHexDecode", "DCTDecode"],
     "a85+dct": ["ASCII85Decode", "DCTDecode"], "rl+dct": ["RunLengthDecode", "DCTDecode"],
     "ahx+flate+dct": ["ASCIIHexDecode", "FlateDecode", "DCTDecode"], "a85+flate+dct": ["ASCII85Decode", "FlateDecode", "DCTDecode"],
+    "lzw+dct": ["LZWDecode", "DCTDecode"], "ahx+lzw+dct": ["ASCIIHexDecode", "LZWDecode", "DCTDecode"],
     "flate-raw": ["FlateDecode"],
 }
 
